@@ -1,4 +1,5 @@
 """Second half of the translator: constructor IR, facade action lists, misc declarative code."""
+import ast
 
 
 def gen_ctors(mods, tables):
@@ -10,4 +11,79 @@ def gen_facade(mods):
 
 
 def gen_misc(mods):
-    return "(* placeholder *)\n", {}
+    from translate import HEADER, coq_str, const_int, src_of
+    lines = [HEADER.format(src="scsi_command.py (init_cdb), scsi.py (attach table), iscsi_device.py (status dispatch)",
+                           extra=" Model.Command")]
+    info = {}
+    unknown = []
+    # ---- SCSICommand.init_cdb: if lo <= opcode.value <= hi: cdb = bytearray(n) | raise ... else: raise
+    mod = next(m for m in mods if m.stem == "scsi_command")
+    fn = None
+    for node in ast.walk(mod.tree):
+        if isinstance(node, ast.FunctionDef) and node.name == "init_cdb":
+            fn = node
+    ranges, else_raises = [], False
+    ok = fn is not None
+    if ok:
+        body = [s for s in fn.body if not (isinstance(s, ast.Expr) and isinstance(s.value, ast.Constant))]
+        if not (len(body) == 2 and isinstance(body[0], ast.If) and isinstance(body[1], ast.Return)
+                and isinstance(body[1].value, ast.Name)):
+            ok = False
+        else:
+            retvar = body[1].value.id
+            node = body[0]
+            while True:
+                t = node.test
+                rng = None
+                if (isinstance(t, ast.Compare) and len(t.ops) == 2 and all(isinstance(o, ast.LtE) for o in t.ops)
+                        and isinstance(t.comparators[0], ast.Attribute) and t.comparators[0].attr == "value"
+                        and isinstance(t.comparators[0].value, ast.Name) and t.comparators[0].value.id == fn.args.args[0].arg):
+                    lo, hi = const_int(t.left), const_int(t.comparators[1])
+                    if lo is not None and hi is not None and lo >= 0 and hi >= 0:
+                        rng = (lo, hi)
+                act = branch_action(node.body, retvar)
+                if rng is None or act is None:
+                    ok = False
+                    unknown.append("init_cdb: " + src_of(node.test, mod.text))
+                    break
+                ranges.append((rng[0], rng[1], act[1]))
+                if len(node.orelse) == 1 and isinstance(node.orelse[0], ast.If):
+                    node = node.orelse[0]
+                    continue
+                if node.orelse:
+                    act = branch_action(node.orelse, retvar)
+                    if act is None or act[1] is not None:
+                        ok = False
+                        unknown.append("init_cdb else branch")
+                    else:
+                        else_raises = True
+                break
+    if not ok:
+        unknown.append("init_cdb: unrecognised shape")
+        ranges, else_raises = [], False
+    lines.append("Definition init_cdb_ranges : list cdb_range := [" + "; ".join(
+        "(%d, %d, %s)" % (lo, hi, "Some %d%%nat" % n if n is not None else "None") for lo, hi, n in ranges) + "].\n")
+    lines.append("Definition init_cdb_else_raises : bool := %s.\n" % ("true" if else_raises else "false"))
+    info["init_cdb"] = dict(ranges=ranges, else_raises=else_raises)
+    lines.append("Definition unknown_misc : list string := [" + "; ".join(coq_str(u) for u in unknown) + "].\n")
+    info["unknown"] = unknown
+    return "\n".join(lines), info
+
+
+def branch_action(stmts, retvar):
+    """('len', n) for `retvar = bytearray(n)`, ('raise', None) for `raise ...OpcodeException`, else None"""
+    from translate import const_int
+    if len(stmts) != 1:
+        return None
+    s = stmts[0]
+    if isinstance(s, ast.Assign) and len(s.targets) == 1 and isinstance(s.targets[0], ast.Name) \
+            and s.targets[0].id == retvar and isinstance(s.value, ast.Call) and isinstance(s.value.func, ast.Name) \
+            and s.value.func.id == "bytearray" and len(s.value.args) == 1:
+        n = const_int(s.value.args[0])
+        if n is not None and n >= 0:
+            return ("len", n)
+    if isinstance(s, ast.Raise) and s.exc is not None:
+        e = s.exc.func if isinstance(s.exc, ast.Call) else s.exc
+        if isinstance(e, ast.Attribute) and e.attr == "OpcodeException":
+            return ("raise", None)
+    return None
